@@ -36,6 +36,16 @@ CHECKS = {
         "harness's own SHA-256 from the specification's expressions.",
    note="hash functions are free constructors in the model; own SHA-256 in the harness; txids/entropies random; JSON leaf values "
         "restricted to strings, integers, booleans, null."),
+ "C17": dict(
+   cat="model_checking", design="§4 C17",
+   technique="TLA+ LFSR model of the four BCH checksums; TLC walks every error distance with all 31 error values and a syndrome history "
+             "(exhaustive for all 1- and 2-symbol errors); spec LFSR runs replayed through the library's checksum engines; exhaustive "
+             "character corruption of representative addresses through every parser",
+   text="TLC proves for the generator in the specification that no one- or two-symbol corruption of any checksummed string up to the "
+        "bound (beyond the longest address) has syndrome 0 or the bech32/bech32m difference; the generator, targets and checksum length "
+        "are tied to /repo by replaying the specification's LFSR runs through the real checksum engines, and the decoders by "
+        "enumerating single/double/hrp corruptions of representative addresses through every parsing entry point.",
+   note="GF(32) XOR by table; linearity of the code; representative addresses rather than all addresses for the decoder binding."),
 }
 NA_PENDING = "check not built yet in this round (planned, see DESIGN.md §4)"
 
